@@ -81,7 +81,14 @@ func genC05(r *PRNG, tier string) *Scenario {
 	if !realIsServer {
 		dir = "ba"
 	}
-	scn.Net = NetCfg{DefCap: r.Pick([]int{64, 4096, 65536, 1 << 20}), Conns: []ConnCfg{{Cuts: []Cut{{Dir: dir, Offset: int64(off), Style: cutStyles[r.Intn(len(cutStyles))]}}}}}
+	cut := Cut{Dir: dir, Offset: int64(off), Style: cutStyles[r.Intn(len(cutStyles))]}
+	if cut.Style == fTimeout && r.Chance(1, 2) {
+		// a read deadline that expired once and was then extended: the rest of the stream
+		// arrives afterwards, but the connection must stay failed
+		cut.Transient = true
+		scn.Class = "cut-transient-timeout"
+	}
+	scn.Net = NetCfg{DefCap: r.Pick([]int{64, 4096, 65536, 1 << 20}), Conns: []ConnCfg{{Cuts: []Cut{cut}}}}
 	return scn
 }
 
@@ -109,6 +116,26 @@ func oracleC05(run *Run) {
 			nFinal = int(c.N)
 			fired = true
 			break
+		}
+	}
+	if cut.Transient {
+		// a transient timeout that fired while net/http (or the handshake) was reading is absorbed
+		// there and is not this property's matter: judge only faults seen by a websocket read call
+		seen := false
+		if rt := findTask(e, "reader"); rt != nil {
+			for _, c := range e.Net.Calls() {
+				if c.Op == 'R' && int(c.Fault) == cut.Style {
+					for _, r := range rt.Hist {
+						if r.Invoke <= c.Step && c.Step <= r.Return {
+							seen = true
+						}
+					}
+					break
+				}
+			}
+		}
+		if !seen {
+			return
 		}
 	}
 	kStrict := k - nFinal
